@@ -22,8 +22,39 @@ structure Codec (K G T J : Type) where
   tOf : List K → Option T
   tTo : T → List K
   jTo : J → List K
+  /-- the group's generator matrices, row-major, as integer tables (see Generated/Generators) -/
+  genTable : List (List Int) := []
 
 variable {K : Type} [Scalar K]
+
+/-- Eigen's completely unrolled, non-vectorised reduction: split the range in halves. -/
+def treeSum : (fuel : Nat) → List K → K
+  | 0, _ => nat 0
+  | fuel + 1, l =>
+    match l with
+    | [] => nat 0
+    | [a] => a
+    | _ =>
+      let h := l.length / 2
+      treeSum fuel (l.take h) + treeSum fuel (l.drop h)
+
+def dotTree (a b : List K) : K := treeSum (a.length + 1) (List.zipWith (· * ·) a b)
+
+/-- row-major `n×n` list times vector (fixed-size coefficient-based product) -/
+def matVecFlat (n : Nat) (m : List K) (v : List K) : List K :=
+  (List.range n).map fun i => dotTree ((m.drop (n * i)).take n) v
+
+/-- row vector times row-major `n×n` list -/
+def vecMatFlat (n : Nat) (v : List K) (m : List K) : List K :=
+  (List.range n).map fun j => dotTree v ((List.range n).map fun k => m.getD (n * k + j) (nat 0))
+
+def ofInt (v : Int) : K := if v < 0 then -(nat v.natAbs) else nat v.natAbs
+
+/-- `InnerWeightsEvaluator::run`: `W(r,c) = trace(Generator(r) * Generator(c)^T)`; the entries
+    are small integers, so the summation order is immaterial. -/
+def innerWeightsOfTable (tbl : List (List Int)) : List K :=
+  tbl.flatMap fun gr => tbl.map fun gc =>
+    ofInt ((List.zipWith (· * ·) gr gc).foldl (· + ·) 0)
 
 def optJ {J} (f : J → List K) : Option J → List K
   | some j => f j
@@ -89,10 +120,27 @@ def runBase {G T J} (o : GroupOps K G T J) (c : Codec K G T J)
   | "rjacinv" => do let (t, _) ← takeT c args; pure (.ok (c.jTo (o.rjacinv t)))
   | "ljacinv" => do let (t, _) ← takeT c args; pure (.ok (c.jTo (o.ljacinv t)))
   | "smallAdj" => do let (t, _) ← takeT c args; pure (.ok (c.jTo (o.smallAdj t)))
+  | "bracket" => do
+      -- `BracketEvaluatorImpl::run`: `a.smallAdj() * b`
+      let (a, r) ← takeT c args
+      let (b, _) ← takeT c r
+      pure (.ok (matVecFlat c.dof (c.jTo (o.smallAdj a)) (c.tTo b)))
+  | "innerWeights" => if args.isEmpty then some (.ok (innerWeightsOfTable c.genTable)) else none
+  | "inner" => do
+      -- `(coeffs().transpose() * InnerWeights() * t.coeffs())(0)`
+      let (a, r) ← takeT c args
+      let (b, _) ← takeT c r
+      let W : List K := innerWeightsOfTable c.genTable
+      pure (.ok [dotTree (vecMatFlat c.dof (c.tTo a) W) (c.tTo b)])
+  | "sqwnorm" => do
+      let (a, _) ← takeT c args
+      let W : List K := innerWeightsOfTable c.genTable
+      pure (.ok [dotTree (vecMatFlat c.dof (c.tTo a) W) (c.tTo a)])
+  | "wnorm" => do
+      let (a, _) ← takeT c args
+      let W : List K := innerWeightsOfTable c.genTable
+      pure (.ok [Scalar.sqrt (dotTree (vecMatFlat c.dof (c.tTo a) W) (c.tTo a))])
   | _ => none
-
-/-- `Scalar(v)` for an integer literal of a generated table. -/
-def ofInt (v : Int) : K := if v < 0 then -(nat v.natAbs) else nat v.natAbs
 
 /-- `GeneratorEvaluator::run(i)` for the groups whose generators are switch tables; the tables
     are regenerated from /repo (Generated/Generators.lean).  A negative `int` index becomes a
@@ -134,6 +182,7 @@ def so2Codec : Codec K (SO2 K) (SO2T K) K where
   tOf := fun l => match l with | [a] => some ⟨a⟩ | _ => none
   tTo := SO2T.toList
   jTo := fun j => [j]
+  genTable := [[0, -1, 1, 0]]      -- `skew(Scalar(1))`
 
 def se2Ops : GroupOps K (SE2 K) (SE2T K) (M3 K) where
   exp := SE2T.exp
@@ -164,6 +213,7 @@ def se2Codec : Codec K (SE2 K) (SE2T K) (M3 K) where
   tOf := fun l => match l with | [a, b, c] => some ⟨a, b, c⟩ | _ => none
   tTo := SE2T.toList
   jTo := M3.toList
+  genTable := Generated.SE2GenTable
 
 def so3Ops : GroupOps K (SO3 K) (SO3T K) (M3 K) where
   exp := SO3T.exp
@@ -194,6 +244,7 @@ def so3Codec : Codec K (SO3 K) (SO3T K) (M3 K) where
   tOf := fun l => match l with | [a, b, c] => some ⟨⟨a, b, c⟩⟩ | _ => none
   tTo := SO3T.toList
   jTo := M3.toList
+  genTable := Generated.SO3GenTable
 
 def se3Ops : GroupOps K (SE3 K) (SE3T K) (M6 K) where
   exp := SE3T.exp
@@ -226,6 +277,7 @@ def se3Codec : Codec K (SE3 K) (SE3T K) (M6 K) where
     | [a, b, c, d, e, f] => some ⟨⟨a, b, c⟩, ⟨d, e, f⟩⟩ | _ => none
   tTo := SE3T.toList
   jTo := M6.toList
+  genTable := Generated.SE3GenTable
 
 /-- group-specific operations (act, hat, transform, generators, …). -/
 def runSO2 (dbg : Bool) (op : String) (mask : Nat) (args : List K) (ints : List Int) :
@@ -238,6 +290,7 @@ def runSO2 (dbg : Bool) (op : String) (mask : Nat) (args : List K) (ints : List 
       some (.ok ((X.act v).toList ++ (if w0 then (X.actJm v).toList else []) ++
         (if w1 then (X.actJv v).toList else [])))
   | "hat", [a], _ => some (.ok (SO2T.hat ⟨a⟩).toList)
+  | "vee", [a, b, c, d], _ => some (.ok (SO2T.vee ⟨a, b, c, d⟩).toList)
   | "transform", [a, b], _ => some (.ok (SO2.transform ⟨a, b⟩).toList)
   | "rotation", [a, b], _ => some (.ok (SO2.rotation ⟨a, b⟩).toList)
   | "generator", [], [i] => some ((SO2T.generator (K := K) i).map M2.toList)
@@ -257,6 +310,7 @@ def runSE2 (dbg : Bool) (op : String) (mask : Nat) (args : List K) (ints : List 
       some (.ok ((X.act v).toList ++ (if w0 then X.actJm v else []) ++
         (if w1 then (X.actJv v).toList else [])))
   | "hat", [a, b, c], _ => some (.ok (SE2T.hat ⟨a, b, c⟩).toList)
+  | "vee", [a, b, c, d, e, f, g, h, i], _ => some (.ok (SE2T.vee ⟨a, b, c, d, e, f, g, h, i⟩).toList)
   | "transform", [a, b, c, d], _ => some (.ok (SE2.transform ⟨a, b, c, d⟩).toList)
   | "rotation", [a, b, c, d], _ => some (.ok (SE2.rotation ⟨a, b, c, d⟩).toList)
   | "generator", [], [i] => some (genFromTable Generated.SE2GenTable Generated.SE2GenErr i)
@@ -277,6 +331,7 @@ def runSO3 (dbg : Bool) (op : String) (mask : Nat) (args : List K) (ints : List 
       some (.ok ((X.act v).toList ++ (if w0 then (X.actJm v).toList else []) ++
         (if w1 then (X.actJv v).toList else [])))
   | "hat", [a, b, c], _ => some (.ok (SO3T.hat ⟨⟨a, b, c⟩⟩).toList)
+  | "vee", [a, b, c, d, e, f, g, h, i], _ => some (.ok (SO3T.vee ⟨a, b, c, d, e, f, g, h, i⟩).toList)
   | "transform", [a, b, c, d], _ => some (.ok (SO3.transformRows ⟨⟨a, b, c, d⟩⟩))
   | "rotation", [a, b, c, d], _ => some (.ok (SO3.rotation ⟨⟨a, b, c, d⟩⟩).toList)
   | "generator", [], [i] => some (genFromTable Generated.SO3GenTable Generated.SO3GenErr i)
@@ -303,6 +358,7 @@ def runSE3 (dbg : Bool) (op : String) (mask : Nat) (args : List K) (ints : List 
       some (.ok (SE3.normalize ⟨⟨a, b, c⟩, ⟨qx, qy, qz, qw⟩⟩).toList)
   | "make", [a, b, c, qx, qy, qz, qw], _ =>
       some ((SE3.make dbg ⟨a, b, c⟩ ⟨qx, qy, qz, qw⟩).map SE3.toList)
+  | "vee", _, _ => if args.length == 16 then some (.ok (SE3T.vee args).toList) else none
   | "fillQ", [a, b, c, d, e, f], _ => some (.ok (SE3T.fillQ ⟨a, b, c⟩ ⟨d, e, f⟩).toList)
   | _, _, _ => runBase se3Ops se3Codec dbg op mask args
 
@@ -337,6 +393,7 @@ def se23Codec : Codec K (SE23 K) (SE23T K) (M9 K) where
     | [a, b, c, d, e, f, g, h, i] => some ⟨⟨a, b, c⟩, ⟨d, e, f⟩, ⟨g, h, i⟩⟩ | _ => none
   tTo := SE23T.toList
   jTo := M9.toList
+  genTable := Generated.SE23GenTable
 
 def runSE23 (dbg : Bool) (op : String) (mask : Nat) (args : List K) (ints : List Int) :
     Option (Except Err (List K)) :=
@@ -344,6 +401,7 @@ def runSE23 (dbg : Bool) (op : String) (mask : Nat) (args : List K) (ints : List
   let w1 := (mask / 2) % 2 == 1
   match op, ints with
   | "generator", [i] => if args.isEmpty then some (genFromTable Generated.SE23GenTable Generated.SE23GenErr i) else none
+  | "vee", [] => if args.length == 25 then some (.ok (SE23T.vee args).toList) else none
   | _, _ =>
   match se23Codec.gOf (args.take 10), se23Codec.tOf (args.take 9) with
   | some X, _ =>
@@ -390,6 +448,13 @@ def runRn (n : Nat) (_dbg : Bool) (op : String) (mask : Nat) (args : List K) (in
   | "adj" => if one then some (.ok I) else none
   | "rjac" | "ljac" | "rjacinv" | "ljacinv" => if one then some (.ok I) else none
   | "smallAdj" => if one then some (.ok Z) else none
+  | "bracket" => if two then some (.ok (a.map fun _ => nat 0)) else none   -- `Tangent::Zero()`
+  | "innerWeights" => if args.isEmpty then some (.ok I) else none
+  | "inner" => if two then some (.ok [dotTree (vecMatFlat n a I) b]) else none
+  | "sqwnorm" => if one then some (.ok [dotTree (vecMatFlat n a I) a]) else none
+  | "wnorm" => if one then some (.ok [Scalar.sqrt (dotTree (vecMatFlat n a I) a)]) else none
+  | "vee" => if args.length == (n + 1) * (n + 1) then
+      some (.ok ((List.range n).map fun i => args.getD ((n + 1) * i + n) (nat 0))) else none
   | "transform" => if one then some (.ok (Rn.transformRows a)) else none
   | "hat" => if one then some (.ok (Rn.hatRows a)) else none
   | "make" => if one then some (.ok a) else none
